@@ -343,7 +343,7 @@ def gen_iter(tier, rng, backends=BACKENDS_X86, with_count=True):
         be0 = backends[j % len(backends)]
         be = be0.split(":")[0]
         cpu = (" cpu=" + be0.split(":")[1]) if ":" in be0 else ""
-        ar = 1 if j % 3 == 0 else rng.choice([1, 2, 3])
+        ar = [1, 2, 3][(j // len(backends)) % 3] if j % 2 == 0 else rng.choice([1, 2, 3])
         ns = [[0x61], [0x61, 0x00], [0xFF, 0x80, 0x61]][ar - 1]
         n = rng.choice([rng.randrange(16, 40), rng.randrange(32, 100), rng.randrange(64, 200)])
         dens = rng.choice([1, 2, 3, 7, 16, 40, 1000])
@@ -364,13 +364,20 @@ def gen_iter(tier, rng, backends=BACKENDS_X86, with_count=True):
         if j % 5 == 0:
             ops = "".join(rng.choice("NB") for _ in range(min(nm, 30))) + "NBNB"
         cases.append(f"iter be={be}{cpu} ns={hexs(bytes(ns))} a={rng.randrange(64)} h={hexs(bytes(h))} ops={ops}")
+        if be == "top" and j % 2 == 0:
+            # memrchr_iter / memrchr2_iter / memrchr3_iter (Rev adaptor); count goes through the adaptor, so no C
+            cases.append(f"iter be=top{cpu} rev=1 ns={hexs(bytes(ns))} a={rng.randrange(64)} h={hexs(bytes(h))} ops={ops.replace('C', 'S')}")
     return cases
 
 def oracle_iter(op, kv, res, trace, flags):
     ns = bytes.fromhex(kv["ns"]); h = bytes.fromhex(kv.get("h", ""))
     dq = [i for i, b in enumerate(h) if b in ns]
+    if kv.get("rev") == "1":       # memrchr_iter: the same queue, served from the other end
+        dq = [-1 - i for i in reversed(dq)]
     ops = kv.get("ops", "")
     outs = res.split(";") if res != "-" else []
+    if kv.get("rev") == "1":
+        outs = [(f"Some({-1 - int(o[5:-1])})" if o.startswith("Some(") else o) for o in outs]
     if res.startswith("Panic") or res.startswith("CRASH"):
         return f"iterator history {ops} ended in {res}"
     if len(outs) != len(ops):
